@@ -822,4 +822,43 @@ theorem reach_roomW {cfg : Cfg} {kinds : List Kind} {wnd infl : Nat} {s : State}
       · exact h3 (h hp (by rw [← h1, ← h2]; exact hroom))
       · exact h1 hroom
 
+/-! ## enabledness of the exits of a blocked caller -/
+
+theorem canStep_read_tok {cfg : Cfg} {sh : Sh} {t : Thread} (hk : t.kind = .read) (hp : t.pc = .sel)
+    (h : sh.rtok = true) : t.canStep cfg sh = true :=
+  canStep_of_choice .tok (by simp [tstep, tstepRead, hk, hp, h])
+
+theorem canStep_write_tok {cfg : Cfg} {sh : Sh} {t : Thread} (hk : t.kind = .write) (hp : t.pc = .sel)
+    (h : sh.wtok = true) : t.canStep cfg sh = true :=
+  canStep_of_choice .tok (by simp [tstep, tstepWrite, hk, hp, h])
+
+theorem canStep_timeout {cfg : Cfg} {sh : Sh} {t : Thread} (hp : t.pc = .sel)
+    (hc : t.c = true) (hb : t.buf = true) : t.canStep cfg sh = true :=
+  canStep_of_choice .timeout (by cases hk : t.kind <;> simp [tstep, tstepRead, tstepWrite, tstepAccept, hk, hp, hc, hb])
+
+theorem canStep_armed {cfg : Cfg} {sh : Sh} {t : Thread} {d : Time} (ha : t.armed = some d) (hd : d ≤ sh.now) :
+    t.canStep cfg sh = true :=
+  canStep_of_fire (by simp [Thread.fire, ha, hd])
+
+theorem canStep_aboutToCheck {cfg : Cfg} {sh : Sh} {t : Thread} (h : t.aboutToCheck) : t.canStep cfg sh = true := by
+  obtain ⟨hk, hp | hp | hp⟩ := h
+  · exact canStep_of_choice .go (by simp [tstep, tstepRead, hk, hp])
+  · refine canStep_of_choice .go ?_
+    simp only [tstep, tstepRead, hk, hp]; split <;> rfl
+  · refine canStep_of_choice .go ?_
+    simp only [tstep, tstepRead, hk, hp]; split <;> rfl
+
+/-- a blocked caller whose loaded deadline has passed can move (timer expiry or timeout case) -/
+theorem canStep_deadline_passed {cfg : Cfg} {sh : Sh} {t : Thread} {d : Time} (hinv : TimerInv sh.now t)
+    (hp : t.pc = .sel) (hs : t.seen = some d) (hd : d ≤ sh.now) : t.canStep cfg sh = true := by
+  have := hinv.deadline (Or.inr (Or.inr hp)) d hs
+  rcases this.2 with ⟨ha, _⟩ | ⟨_, hb, _⟩
+  · exact canStep_armed ha hd
+  · exact canStep_timeout hp this.1 hb
+
+theorem not_canStep_of_quiescent {cfg : Cfg} {s : State} {t : Thread} (hq : quiescent cfg s = true)
+    (ht : t ∈ s.ths) : t.canStep cfg s.sh = false := by
+  simp only [quiescent, List.all_eq_true] at hq
+  simpa using hq t ht
+
 end KcpVerif.Wait
